@@ -8,12 +8,17 @@ SPEC = {
         run("names", H, "asan", 2816 + 20000, 2816 + 1000000, params={"engine": "names"}),
         run("views", H, "asan", 8000, 400000, params={"engine": "views"}),
         run("scopes", H, "asan", 8000, 400000, params={"engine": "scopes"}),
+        # real-thread clause of "same identity -> same object": concurrent first requests (TSan + shim)
+        run("identity-threads", "c19_identity_threads", "tsan", 400, 20000, sq=4, st=16,
+            timeout={"quick": 1500, "thorough": 7200}),
         # ABI v2: GetTracer/GetMeter take scope attributes, so they become part of the identity and of the rules
         run("scopes-abi2", H, "asan-abi2", 0, 100000, params={"engine": "scopes"}, tiers=("thorough",)),
     ],
     # sized from seeds {1,2,3,7,42,1000,65537,2^31-1} on the unchanged+fixes tree: every floor is met >= 3.9x
     "floors": {
         "quick": {
+            "concurrent_get_cases_traces": 60, "concurrent_get_cases_metrics": 60, "concurrent_get_cases_logs": 60,
+            "concurrent_get_cases_ge4_threads": 100, "concurrent_get_requests": 3000,
             # names / units
             "names_enumerated": 2700, "names_random": 6000, "name_valid_cases": 2000, "name_invalid_cases": 2000,
             "name_boundary_length_cases": 400, "name_embedded_nul_cases": 200, "unit_invalid_cases": 400,
